@@ -293,24 +293,14 @@ Section Pairing.
     - rewrite Forall_forall. intros s Hs.
       destruct (from_lists_keys V paths firsts lls lps (ones V one (length lls)) s Hf Hs) as [r [Hr [Hkw _]]].
       split.
-      + clear -Hs. revert Hs. generalize (length lls) at 1. intros n.
-        generalize dependent lps. generalize dependent lls. revert n.
-        induction firsts as [|f firsts IH]; intros n lls lps Hs; simpl in Hs; [contradiction|].
-        destruct lls as [|l lls]; [contradiction|]. destruct lps as [|p lps]; [contradiction|].
-        destruct n as [|n]; simpl in Hs; [contradiction|].
-        destruct Hs as [<-|Hs]; [reflexivity|]. eapply IH; eauto.
+      + apply from_lists_weight_in in Hs. unfold ones in Hs. apply repeat_spec in Hs. exact Hs.
       + assert (Hv : s_vec V s = r).
         { unfold s_vec. rewrite Hkw. apply combine_snd. unfold Proofs1.rows_ok in Hf. rewrite Forall_forall in Hf; auto. }
         rewrite Hv. clear -Hh Hr. induction Hh as [|it f pos firsts [rest ->] H IH]; [contradiction|].
         destruct Hr as [<-|Hr].
         * exists (f :: rest); split; [left; reflexivity | eauto].
         * destruct (IH Hr) as [it [Hit Hrest]]. exists it; split; [right; auto | auto].
-    - assert (Hlen : length (from_lists V paths firsts lls lps (ones V one (length lls))) <= length firsts).
-      { generalize (ones V one (length lls)). generalize lps. generalize lls. clear.
-        induction firsts as [|f firsts IH]; intros lls lps ws; simpl; [lia|].
-        destruct lls; [simpl; lia|]. destruct lps; [simpl; lia|]. destruct ws; [simpl; lia|]. simpl.
-        specialize (IH lls lps ws). lia. }
-      rewrite (Forall2_length Hh). exact Hlen.
+    - rewrite (Forall2_length _ _ _ Hh). apply from_lists_length_le.
   Qed.
 End Pairing.
 
